@@ -613,6 +613,48 @@ example : validateMembersIndices [1, 3, 7] 10 = true := by decide
 example : validateMembersIndices [3, 1, 7] 10 = false := by decide
 
 
+/-! ## the checks with generated comparison operators are the hand-written ones -/
+
+theorem chainAny_ge : ∀ (l : List Nat), chainAny (fun a b => decide (a ≥ b)) l = !chainLt l
+  | [] => rfl
+  | [_] => rfl
+  | a :: b :: rest => by
+    simp only [chainAny, chainLt, chainAny_ge (b :: rest), Bool.not_and]
+    congr 1
+    by_cases h : a < b <;> simp [h] <;> omega
+
+theorem chainAll_lt : ∀ (l : List Nat), chainAll (fun a b => decide (a < b)) l = chainLt l
+  | [] => rfl
+  | [_] => rfl
+  | a :: b :: rest => by simp only [chainAll, chainLt, chainAll_lt (b :: rest)]
+
+/-- **T1 tie of the comparison operators.** With the operators extracted from the contract text,
+    the generated `validateFields` is the hand-written one (so every theorem about
+    `validateFields` is a theorem about the generated version the monitor runs). -/
+theorem validateFieldsGen_eq (r : DkgResult) : validateFieldsGen r = validateFields r := by
+  have h5 : Gen.C40.vfOp5 = fun a b => decide (a ≥ b) := rfl
+  have h13 : Gen.C40.vfOp13 = fun a b => decide (a ≥ b) := rfl
+  unfold validateFieldsGen validateFields
+  rw [h5, h13]
+  simp only [Gen.C40.vfOp0, Gen.C40.vfOp1, Gen.C40.vfOp2, Gen.C40.vfOp3, Gen.C40.vfOp4,
+    Gen.C40.vfOp6, Gen.C40.vfOp7, Gen.C40.vfOp8, Gen.C40.vfOp9, Gen.C40.vfOp10, Gen.C40.vfOp11,
+    Gen.C40.vfOp12, chainAny_ge, Bool.and_eq_true, Bool.or_eq_true, decide_eq_true_eq,
+    Bool.not_eq_true', Bool.not_eq_true]
+
+theorem validateMembersIndicesGen_eq (l : List Nat) (n : Nat) :
+    validateMembersIndicesGen l n = validateMembersIndices l n := by
+  have h4 : Gen.C40.viOp4 = fun a b => decide (a < b) := rfl
+  unfold validateMembersIndicesGen validateMembersIndices
+  rw [h4, chainAll_lt]
+  simp only [Gen.C40.viOp0, Gen.C40.viOp1, Gen.C40.viOp2, Gen.C40.viOp3, Bool.decide_and]
+
+theorem verifyClaimStaticGen_eq (c : Claim) (n : Nat) :
+    verifyClaimStaticGen c n = verifyClaimStatic c n := by
+  unfold verifyClaimStaticGen verifyClaimStatic
+  simp only [validateMembersIndicesGen_eq, Gen.C40.vcOp0, Gen.C40.vcOp1, Gen.C40.vcOp2,
+    Gen.C40.vcOp3, Gen.C40.vcOp4, Bool.not_eq_true', decide_eq_false_iff_not, Bool.not_eq_true,
+    Nat.not_le, ge_iff_le, gt_iff_lt, ne_eq, Decidable.not_not]
+
 /-! ## the supporter map's iteration order does not matter -/
 
 theorem lookup_eq_some_iff (sigs : List (Nat × Bytes)) (hnd : (sigs.map Prod.fst).Nodup) (i : Nat)
@@ -749,8 +791,8 @@ theorem holdsDkg_model (H : Bytes → Bytes) (inp : DkgInput) (real : List Nat) 
     obtain ⟨hd, r, pre, wid, hr, hpre, hwid, hv⟩ := hsub hs
     have h1 := hin r pre wid hd hr hpre hwid
     have h2 := (hrec r hr).2
-    simp only [hr, hpre, hwid, holdsDkg, hd, hs, Bool.not_true, Bool.false_or, h1, hv, Bool.true_and,
-      beq_self_eq_true]
+    simp only [hr, hpre, hwid, holdsDkg, validateFieldsGen_eq, hd, hs, Bool.not_true, Bool.false_or,
+      h1, hv, Bool.true_and, beq_self_eq_true]
     cases hall : (inp.sigs.all fun s => real.contains s.1) with
     | false => rfl
     | true => simp [h2 hall]
@@ -830,8 +872,8 @@ theorem holdsClaim_model (H : Bytes → Bytes) (inp : ClaimInput) (real : List N
     obtain ⟨hd, c, pre, hr, hpre, hv⟩ := hsub hs
     have h1 := hin c pre hd hr hpre
     have h2 := (hrec c hr).2
-    simp only [hr, hpre, holdsClaim, hd, hs, Bool.not_true, Bool.false_or, h1, hv, Bool.true_and,
-      beq_self_eq_true]
+    simp only [hr, hpre, holdsClaim, verifyClaimStaticGen_eq, hd, hs, Bool.not_true, Bool.false_or,
+      h1, hv, Bool.true_and, beq_self_eq_true]
     cases hall : (inp.sigs.all fun s => real.contains s.1) with
     | false => rfl
     | true => simp [h2 hall]
@@ -923,6 +965,91 @@ theorem pickMembers_ok (members : List Nat) :
     congr 2
     simp [List.getD, List.getElem?_eq_getElem hlt]
 
+/-- The signer indexes the client submits are strictly ascending, hence unique — what both
+    contracts require of `signingMembersIndices` — for every supporter map (keys of a map are
+    distinct), whatever its iteration order. -/
+theorem signing_indices_strict (sigs : List (Nat × Bytes)) (hkeys : (sigs.map Prod.fst).Nodup)
+    (signers : List Nat) (sigBytes : Bytes) (hconv : convertSignatures sigs = .ok (signers, sigBytes)) :
+    signers.Pairwise (· < ·) ∧ signers.Nodup ∧ chainLt signers = true ∧
+      ∀ i, i ∈ signers ↔ i ∈ sigs.map Prod.fst := by
+  simp only [convertSignatures] at hconv
+  cases hcs : concatSigs sigs (sortNat (sigs.map Prod.fst)) with
+  | error e => rw [hcs] at hconv; cases hconv
+  | ok bs =>
+    rw [hcs] at hconv
+    injection hconv with hconv
+    injection hconv with h1 h2
+    subst h1
+    have hs := sortNat_strict hkeys
+    exact ⟨hs, strict_nodup hs, chainLt_of_strict hs, fun i => mem_sortNat⟩
+
+/-- Core of both signature theorems: the concatenated signatures of the supporter map, cut into
+    `sz`-byte slices, recover one by one to the addresses of the operators of the signing seats. -/
+theorem converted_signatures_check (recover : Bytes → Bytes → Option Nat) (addrOf : Nat → Nat)
+    (sign : Nat → Bytes → Bytes) (hlaw : ∀ k d, recover d (sign k d) = some (addrOf k))
+    (sigs : List (Nat × Bytes)) (ids : List Nat) (d : Bytes) (sz : Nat)
+    (hsz : goSignatureSize = sz) (hpos : 0 < sz)
+    (signers : List Nat) (sigBytes : Bytes) (hconv : convertSignatures sigs = .ok (signers, sigBytes))
+    (hrange : ∀ k ∈ sigs.map Prod.fst, 1 ≤ k ∧ k ≤ ids.length)
+    (hsigned : ∀ s ∈ sigs, s.2 = sign (ids.getD (s.1 - 1) 0) d) :
+    pickMembers ids signers = some (signers.map (fun i => ids.getD (i - 1) 0)) ∧
+    checkSigLoop recover d sigBytes sz ((signers.map (fun i => ids.getD (i - 1) 0)).map addrOf)
+      (List.range (sigBytes.length / sz)) = some true := by
+  have hconv' : signers = sortNat (sigs.map Prod.fst) ∧
+      concatSigs sigs (sortNat (sigs.map Prod.fst)) = .ok sigBytes := by
+    simp only [convertSignatures] at hconv
+    cases hcs : concatSigs sigs (sortNat (sigs.map Prod.fst)) with
+    | error e => rw [hcs] at hconv; cases hconv
+    | ok bs =>
+      rw [hcs] at hconv
+      injection hconv with hconv
+      injection hconv with h1 h2
+      exact ⟨h1.symm, by rw [← h2]⟩
+  obtain ⟨rfl, hcat⟩ := hconv'
+  obtain ⟨hflat, hlens⟩ := concatSigs_eq_flatten _ _ _ hcat
+  have hsr : ∀ i ∈ sortNat (sigs.map Prod.fst), 1 ≤ i ∧ i ≤ ids.length :=
+    fun i hi => hrange i (mem_sortNat.1 hi)
+  refine ⟨pickMembers_ok ids _ hsr, ?_⟩
+  let idx := sortNat (sigs.map Prod.fst)
+  let chunks := idx.map (fun i => (sigs.lookup i).getD [])
+  have hchunkLen : ∀ c ∈ chunks, c.length = sz := by
+    intro c hcm
+    obtain ⟨i, hi, rfl⟩ := List.mem_map.1 hcm
+    rw [← hsz]; exact hlens i hi
+  have hflen : sigBytes.length = sz * idx.length := by
+    rw [hflat]
+    have : ∀ (cs : List Bytes), (∀ c ∈ cs, c.length = sz) → cs.flatten.length = sz * cs.length := by
+      intro cs; induction cs with
+      | nil => simp
+      | cons c cs ih =>
+        intro h
+        simp only [List.flatten_cons, List.length_append, List.length_cons, h c (by simp),
+          ih (fun c' hc' => h c' (by simp [hc'])), Nat.mul_succ]; omega
+    have := this chunks hchunkLen
+    simpa [chunks] using this
+  have hcount : sigBytes.length / sz = idx.length := by
+    rw [hflen]; exact Nat.mul_div_cancel_left _ hpos
+  rw [hcount]
+  have hmain := checkSigLoop_concat recover d sz chunks
+    ((idx.map (fun i => ids.getD (i - 1) 0)).map addrOf) [] 0 [] (by simp) rfl
+    (by simp [chunks]) hchunkLen
+    (by
+      intro p hp
+      have hz : chunks.zip ((idx.map (fun i => ids.getD (i - 1) 0)).map addrOf) =
+          idx.map (fun i => ((sigs.lookup i).getD [], addrOf (ids.getD (i - 1) 0))) := by
+        simp only [chunks, List.map_map]
+        rw [List.zip_map']
+        rfl
+      rw [hz] at hp
+      obtain ⟨i, hi, rfl⟩ := List.mem_map.1 hp
+      obtain ⟨s, hs, hmem⟩ := lookup_of_mem_keys sigs i (mem_sortNat.1 hi)
+      simp only [hs, Option.getD_some]
+      have hsg : s = sign (ids.getD (i - 1) 0) d := hsigned (i, s) hmem
+      rw [hsg]
+      exact hlaw _ _)
+  rw [← hflat] at hmain
+  simpa [List.range_eq_range', chunks] using hmain
+
 /-- **signatures_validate.** Assume ECDSA (A-ecdsa): `recover d (sign k d) = some (addrOf k)`.
     If every supporter of the map is a member index and its signature was made by the operator of
     that seat (`ids[idx-1]`) over the *client's* hash with the Ethereum prefix — which is what
@@ -944,62 +1071,37 @@ theorem signatures_validate (H : Bytes → Bytes) (recover : Bytes → Bytes →
   rw [hpre] at e2
   have e2' : dkgSigPreimageContract inp.chainId r inp.startBlock = some pre := e2.symm
   obtain ⟨key, signers, sigBytes, opIds, mpre, _, hconv, _, _, rfl⟩ := (assemble_ok_iff H inp r).1 hr
-  -- shape of the converted signatures
-  have hconv' : signers = sortNat (inp.sigs.map Prod.fst) ∧
-      concatSigs inp.sigs (sortNat (inp.sigs.map Prod.fst)) = .ok sigBytes := by
-    simp only [convertSignatures] at hconv
-    cases hcs : concatSigs inp.sigs (sortNat (inp.sigs.map Prod.fst)) with
-    | error e => rw [hcs] at hconv; cases hconv
-    | ok bs =>
-      rw [hcs] at hconv
-      injection hconv with hconv
-      injection hconv with h1 h2
-      exact ⟨h1.symm, by rw [← h2]⟩
-  obtain ⟨rfl, hcat⟩ := hconv'
-  obtain ⟨hflat, hlens⟩ := concatSigs_eq_flatten _ _ _ hcat
-  have hsr : ∀ i ∈ sortNat (inp.sigs.map Prod.fst), 1 ≤ i ∧ i ≤ inp.ids.length :=
-    fun i hi => hrange i (mem_sortNat.1 hi)
-  have hpick := pickMembers_ok inp.ids _ hsr
-  let idx := sortNat (inp.sigs.map Prod.fst)
-  let chunks := idx.map (fun i => (inp.sigs.lookup i).getD [])
-  have hchunkLen : ∀ c ∈ chunks, c.length = signatureByteSize := by
-    intro c hcm
-    obtain ⟨i, hi, rfl⟩ := List.mem_map.1 hcm
-    rw [← c1]; exact hlens i hi
-  have hflen : sigBytes.length = signatureByteSize * idx.length := by
-    rw [hflat]
-    have : ∀ (cs : List Bytes), (∀ c ∈ cs, c.length = signatureByteSize) →
-        cs.flatten.length = signatureByteSize * cs.length := by
-      intro cs; induction cs with
-      | nil => simp
-      | cons c cs ih =>
-        intro h
-        simp only [List.flatten_cons, List.length_append, List.length_cons, h c (by simp),
-          ih (fun c' hc' => h c' (by simp [hc'])), Nat.mul_succ]; omega
-    have := this chunks hchunkLen
-    simpa [chunks] using this
-  have hcount : sigBytes.length / signatureByteSize = idx.length := by
-    rw [hflen]; exact Nat.mul_div_cancel_left _ c6
-  simp only [validateSignatures, e2', hpick, hcount]
-  have hmain := checkSigLoop_concat recover (ethSigned H (H pre)) signatureByteSize chunks
-    ((idx.map (fun i => inp.ids.getD (i - 1) 0)).map addrOf) [] 0 [] (by simp) rfl
-    (by simp [chunks]) hchunkLen
-    (by
-      intro p hp
-      have hz : chunks.zip ((idx.map (fun i => inp.ids.getD (i - 1) 0)).map addrOf) =
-          idx.map (fun i => ((inp.sigs.lookup i).getD [], addrOf (inp.ids.getD (i - 1) 0))) := by
-        simp only [chunks, List.map_map]
-        rw [List.zip_map']
-        rfl
-      rw [hz] at hp
-      obtain ⟨i, hi, rfl⟩ := List.mem_map.1 hp
-      obtain ⟨s, hs, hmem⟩ := lookup_of_mem_keys inp.sigs i (mem_sortNat.1 hi)
-      simp only [hs, Option.getD_some]
-      have hsg : s = sign (inp.ids.getD (i - 1) 0) (ethSigned H (H pre)) := hsigned (i, s) hmem
-      rw [hsg]
-      exact hlaw _ _)
-  rw [← hflat] at hmain
-  simpa [List.range_eq_range', chunks] using hmain
+  obtain ⟨hpick, hloop⟩ := converted_signatures_check recover addrOf sign hlaw inp.sigs inp.ids
+    (ethSigned H (H pre)) signatureByteSize c1 c6 signers sigBytes hconv hrange hsigned
+  simp only [validateSignatures, e2', hpick, hloop]
 
+/-- **claim_signatures_validate.** Same for inactivity claims: under A-ecdsa, if every supporter
+    of the map is a member index of the wallet's group and signed — with the key of the operator
+    of its seat — the client's claim hash (`Signing().Sign(CalculateInactivityClaimHash(…))`),
+    the signature loop of `EcdsaInactivity.verifyClaim` accepts the assembled claim: signature `i`
+    recovers to `groupMembersAddresses[signingMembersIndices[i] - 1]`. For every chain id and nonce
+    below `2^256`, every accused list and map iteration order. -/
+theorem claim_signatures_validate (H : Bytes → Bytes) (recover : Bytes → Bytes → Option Nat)
+    (addrOf : Nat → Nat) (sign : Nat → Bytes → Bytes)
+    (hlaw : ∀ k d, recover d (sign k d) = some (addrOf k))
+    (inp : ClaimInput) (c : Claim) (pre : Bytes)
+    (hc : inp.chainId < 2 ^ 256) (hn : inp.nonce < 2 ^ 256) (hm : ∀ m ∈ inp.inactive, m < 256)
+    (hrange : ∀ k ∈ inp.sigs.map Prod.fst, 1 ≤ k ∧ k ≤ inp.ids.length)
+    (hpre : claimPreimageClient inp.chainId inp.nonce inp.x inp.y (claimInactive inp.inactive)
+      inp.heartbeatFailed = .ok pre)
+    (hsigned : ∀ s ∈ inp.sigs, s.2 = sign (inp.ids.getD (s.1 - 1) 0) (ethSigned H (H pre)))
+    (hr : assembleClaim inp = .ok c) :
+    verifyClaimSignatures H recover addrOf inp.chainId inp.nonce (marshalCropped inp.x inp.y) c
+      inp.ids = some true := by
+  obtain ⟨c1, c2, c3, c4, c5, c6, _⟩ := constants_tie
+  have hpos : 0 < inactSignatureByteSize := by rw [← c2, c1]; exact c6
+  have e2 := (claim_hash_preimage_equal inp c hc hn hm hr).1
+  rw [hpre] at e2
+  have e2' : claimPreimageContract inp.chainId inp.nonce (marshalCropped inp.x inp.y) c = some pre :=
+    e2.symm
+  obtain ⟨signers, sigBytes, hconv, rfl⟩ := (assembleClaim_ok_iff inp c).1 hr
+  obtain ⟨hpick, hloop⟩ := converted_signatures_check recover addrOf sign hlaw inp.sigs inp.ids
+    (ethSigned H (H pre)) inactSignatureByteSize c2 hpos signers sigBytes hconv hrange hsigned
+  simp only [verifyClaimSignatures, e2', hpick, hloop]
 
 end KeepVerif.C40
